@@ -2,6 +2,11 @@
 STMTS = ["integer :: x", "subroutine s(a, b)", "end subroutine s", "type :: t", "real(8), intent(in) :: a",
          "call f('it''s ! not a comment')", "module m", "x = 1", "use iso_c_binding", "procedure :: p => q",
          "print *, \"a !! b\"", "function f(x) result(r)"]
+# statements whose character literal is continued over several lines: (physical lines, the statement)
+ML_STMTS = [(["call g('long &", "&text')"], "call g('long text')"),
+            (["print *, 'a !! b &", "  &c ! d' // \"e\""], "print *, 'a !! b c ! d' // \"e\""),
+            (["character(len=9) :: s = \"it's &", "   &so\""], "character(len=9) :: s = \"it's so\""),
+            (["x = 'a&", "&b&", "&c'"], "x = 'abc'")]
 WORDS = ["alpha", "beta", "gamma", "delta", "it's", "a \"quoted\" word", "x ! y", "100%", "end module", "@note hm",
          "- item", "`code`", "  indented", "trailing  ", "!", "!!", ">", "*", "|"]
 MARKSETS = [("!", ">", "*", "|"), ("!", ">", "*", "|"), ("!", ">", "*", "|"), ("^", "<", "~", "#"), ("!", "", "", ""),
@@ -22,6 +27,16 @@ def gen_case(rng):
     for k in range(nitems):
         st = rng.choice(STMTS)
         ind = " " * rng.choice([0, 2, 4])
+        head = []           # the lines before the last one of a statement continued inside a literal
+        if rng.random() < 0.2:
+            phys, st_full = rng.choice(ML_STMTS)
+            for h in phys[:-1]:
+                head.append(ind + h)
+                while rng.random() < 0.3:
+                    head.append(rng.choice(["", ind + "! an ordinary comment", "! it's one \" more"]))
+            st = phys[-1]
+        else:
+            st_full = st
         pre_lines, post_lines = [], []
         # preceding documentation
         r = rng.random()
@@ -41,6 +56,7 @@ def gen_case(rng):
             while rng.random() < 0.25:
                 lines.append(rng.choice(["", "   "]))
         # the statement, with following documentation
+        lines += head
         r = rng.random()
         if r < 0.25:
             uid += 1
@@ -65,5 +81,5 @@ def gen_case(rng):
             lines.append(ind + st + (rng.choice(["", " ! ordinary trailing comment", "   "])))
         while rng.random() < 0.3:
             lines.append(rng.choice(["", "   ", ind + "! an ordinary comment", "! another ; one &"]))
-        items.append((st, pre_lines, post_lines))
+        items.append((st_full, pre_lines, post_lines))
     return marks, lines, items
